@@ -9,7 +9,7 @@ from __future__ import annotations
 import ast
 
 from mlmverif import cfg as cfgm
-from mlmverif.core import (AnalysisError, Ctx, FuncInfo, Repo, is_self_attr,
+from mlmverif.core import (parent_map, AnalysisError, Ctx, FuncInfo, Repo, is_self_attr,
                            kwarg, unparse, walk_no_nested)
 from mlmverif.effects import DIRECT, ELEM, NONE, Effects
 
@@ -44,7 +44,7 @@ def bad_operator(inputs, value):
 
 
 def run(ctx: Ctx):
-  for r in (r1, r2, r3, r4, r8, r9):
+  for r in (r1, r2, r3, r4, r8, r9, r10):
     ctx.guard(r)
   from mlmverif.props import c18, c19
   ctx.include('R-C08-5', '"leaves the caller\'s input objects untouched": the'
@@ -52,10 +52,74 @@ def run(ctx: Ctx):
               ' fresh-copy discipline, R-C18-2 routing)', _c18_shared, min_instances=8)
   ctx.include('R-C08-6', 'operators re-batch inputs/outputs with their own'
               ' batch size and column count (R-C19-4 wiring)', c19.r4, min_instances=4)
+  ctx.include('R-C08-11', '"route data exactly as a reference interpreter": a record'
+              ' field literally named like a reserved key (\'SELF\', \'SKIP\') is an'
+              ' ordinary key — select(\'SELF\') reads that field and assign(\'SELF\')'
+              ' adds it; only the reserved OBJECT addresses the whole record (R-C18-4'
+              ' reserved-key test: the candidate must be of the reserved type)',
+              c18.r4, min_instances=4)
   from mlmverif.props import c12
   ctx.include('R-C08-7', '"filter keeps order and drops exactly the rejected'
               ' records": with error skipping the decisions stay paired with'
               ' their own records (R-C12-1)', c12.r1, min_instances=4)
+
+def r10(ctx: Ctx):
+  rule = 'R-C08-10'
+  ctx.rule(rule, '"filter ... drops exactly the rejected records": a record is kept iff'
+           ' its predicate value is TRUTHY (the reference semantics of `filter()`): in'
+           ' FilterFn.iterate the keep-condition is the predicate value itself (v,'
+           ' bool(v), not not v) — not a comparison with a constant (`v == True`, `v is'
+           ' True`, `v == 1`), which rejects truthy values such as len(...) == 2, a match'
+           ' object or a non-empty list, and not a negation')
+  fi = ctx.repo.func('chainables.tree_fns', 'FilterFn.iterate')
+  gens = [x for x in ast.walk(fi.node) if isinstance(x, (ast.GeneratorExp, ast.ListComp))]
+  loops = [x for x in walk_no_nested(fi.node) if isinstance(x, ast.For)]
+  conds = []
+  if gens:
+    ge = gens[0]
+    kept = {y.id for y in ast.walk(ge.elt) if isinstance(y, ast.Name)}
+    tn = {y.id for g_ in ge.generators for y in ast.walk(g_.target) if isinstance(y, ast.Name)}
+    conds = [c for g_ in ge.generators for c in g_.ifs]
+  elif loops:
+    lp = loops[0]
+    tn = {y.id for y in ast.walk(lp.target) if isinstance(y, ast.Name)}
+    ys = [y for y in ast.walk(lp) if isinstance(y, ast.Yield) and y.value is not None]
+    kept = {z.id for y in ys for z in ast.walk(y.value) if isinstance(z, ast.Name)}
+    pm = parent_map(lp)
+    for y in ys:
+      q = pm.get(y)
+      while q is not None and q is not lp:
+        if isinstance(q, ast.If):
+          conds.append(q.test)
+        q = pm.get(q)
+  else:
+    raise AnalysisError(f'{rule}: FilterFn.iterate has neither a comprehension nor a loop that yields the kept records')
+  pred = tn - kept
+  if not pred or not conds:
+    ctx.fail(rule, fi, 'FilterFn.iterate: keep a record iff its predicate value is truthy',
+             'FilterFn.iterate no longer filters the records by their predicate value', node=fi.node)
+    ctx.floor(rule, 1)
+    return
+
+  def truthiness(c):
+    neg = 0
+    while isinstance(c, ast.UnaryOp) and isinstance(c.op, ast.Not):
+      c, neg = c.operand, neg + 1
+    if isinstance(c, ast.Call) and unparse(c.func) == 'bool' and len(c.args) == 1:
+      c = c.args[0]
+    return isinstance(c, ast.Name) and c.id in pred and neg % 2 == 0
+
+  bad = [c for c in conds if any(isinstance(y, ast.Name) and y.id in pred for y in ast.walk(c))
+         and not truthiness(c)]
+  if bad:
+    ctx.fail(rule, fi, 'FilterFn.iterate: keep a record iff its predicate value is truthy',
+             f'the keep-condition `{unparse(bad[0])}` is not the truthiness of the predicate value:'
+             ' predicates returning a truthy non-True value (a count, a match object, a non-empty'
+             ' list) now reject records the reference evaluation keeps', node=bad[0])
+  else:
+    ctx.ok(rule, fi, f'records kept iff `{unparse(conds[0])}` (truthiness)', conds[0])
+  ctx.floor(rule, 1)
+
 
 
 def _c18_shared(sub):
@@ -502,6 +566,12 @@ from mlmverif.selfcheck import B, OK  # noqa: E402
 _F = 'chainables/tree_fns.py'
 _T = 'chainables/transform.py'
 VARIANTS = [
+    B('filter-keeps-only-literal-true', 'chainables/tree_fns.py',
+      '    return (elem for (value,), elem in it_ if value)', '    return (elem for (value,), elem in it_ if value == True)', 'R-C08-10'),
+    B('filter-inverted', 'chainables/tree_fns.py',
+      '    return (elem for (value,), elem in it_ if value)', '    return (elem for (value,), elem in it_ if not value)', 'R-C08-10'),
+    OK('filter-as-loop', 'chainables/tree_fns.py',
+       '    return (elem for (value,), elem in it_ if value)', '    for (value,), elem in it_:\n      if bool(value):\n        yield elem'),
     B('select-kwargs-check-before-unpacking', _F,
       '    input_keys, output_keys = self.input_keys, self.output_keys\n',
       '    input_keys, output_keys = self.input_keys, self.output_keys\n    if self.fn is None:\n      if input_argkeys:\n        raise ValueError(f\'Select Op cannot have kwargs, got {input_keys=}\')\n',
